@@ -274,3 +274,45 @@ Definition zset_subset (a b : list Z) : bool := forallb (fun x => zmem x b) a.
 Definition is_nil {A} (l : list A) : bool := match l with [] => true | _ => false end.
 (* the part of a job select_jobs_by_tag looks at *)
 Record pytagjob := mkPyTagJob { ptj_id : nat; ptj_tags : list Z }.
+
+(* ---- rational priorities ------------------------------------------------------------ *)
+Definition prio := (Z * Z)%type.           (* num / den, den > 0 *)
+Definition qle (a b : prio) : bool := fst a * snd b <=? fst b * snd a.
+Definition qpos (a : prio) : bool := 0 <? fst a.
+
+(* ---- stable descending sort (sorted(..., reverse=True)) ------------------------------ *)
+Section Sort.
+  Context {A : Type} (key : A -> prio).
+  (* insert x in front of l: x goes before the first element with a strictly smaller key *)
+  Fixpoint ins_desc (x : A) (l : list A) : list A :=
+    match l with
+    | [] => [x]
+    | y :: t => if qle (key x) (key y) && negb (qle (key y) (key x)) then y :: ins_desc x t
+                else x :: l
+    end.
+  (* elements are inserted from the right so that equal keys keep their original order *)
+  Definition sort_desc (l : list A) : list A := fold_right ins_desc [] l.
+End Sort.
+
+
+(* ---- the threading Scheduler's selection, as the translator sees it --------------------------- *)
+(* a Job object: identity, scheduling state, weight *)
+Record pyjobobj := mkPyJobObj { jo_id : nat; jo_state : pyjobstate; jo_weight : pyfloat }.
+Record pysched := mkPySched { ps_max_exec : Z; ps_tzinfo : option Z; ps_jobs : list pyjobobj }.
+(* - timedelta.total_seconds() as a Python float (exact rational) *)
+Definition fl_neg_tsec (d : timedelta) : pyfloat := (- d, SEC).
+Definition fl_gt_int (a : pyfloat) (n : Z) : bool := n * snd a <? fst a.
+(* a dict keyed by Job objects (identity), built by one insertion per element of a set: an association list *)
+Fixpoint py_dict_get (d : list (pyjobobj * pyfloat)) (k : pyjobobj) : res pyfloat :=
+  match d with
+  | [] => Err OtherError                      (* KeyError *)
+  | (k', v) :: r => if Nat.eqb (jo_id k') (jo_id k) then Ok v else py_dict_get r k
+  end.
+(* sorted(d, key=d.get, reverse=True): the keys, stable, descending by value *)
+Definition py_sorted_desc (d : list (pyjobobj * pyfloat)) : list pyjobobj := map fst (sort_desc snd d).
+(* [x for idx, x in enumerate(l) if c(idx, x)] with a condition that may raise *)
+Fixpoint filterM_idx {A} (f : Z -> A -> res bool) (i : Z) (l : list A) : res (list A) :=
+  match l with
+  | [] => Ok []
+  | x :: r => bind (f i x) (fun b => bind (filterM_idx f (i + 1) r) (fun r' => Ok (if b then x :: r' else r')))
+  end.
